@@ -80,8 +80,11 @@ def gen_case(rng, tier, g):
         if rng.random() < 0.08:
             left = left[:1]
         r = rng.random()
-        if r < 0.6:
+        if r < 0.5:
             keyspec = {'key': 'a'}
+        elif r < 0.6:
+            # a compound key spec with a single element
+            keyspec = {'key': rng.choice([['a'], ('a',)])}
         elif r < 0.8:
             keyspec = {'key': ['a', 'b']}
         else:
@@ -125,7 +128,7 @@ def gen_case(rng, tier, g):
     nf = 4
     table = gen_table(rng, maxrows, nfields=nf, ragged=False,
                       profile=rng.choice(['default', 'mixedkeys', 'nonone']))
-    key = rng.choice(['a', 'a', ['a', 'b'], 'b', 0])
+    key = rng.choice(['a', 'a', ['a', 'b'], 'b', 0, ['a'], ('b',)])
     value = None
     if fn in ('lookup', 'lookupone'):
         # column d holds None and falsy values: "no value yet" must not be
